@@ -12,6 +12,7 @@
 #include "private/misc.h"
 #include "private/private.h"
 #include "private/debug.h"
+#include "private/verif.h"
 #include "hwloc/bitmap.h"
 
 #include <stdarg.h>
@@ -169,6 +170,7 @@ hwloc_bitmap_realloc_by_ulongs(struct hwloc_bitmap_s * set, unsigned needed_coun
 
   /* fill the newly allocated subset depending on the infinite flag */
   for(i=set->ulongs_count; i<needed_count; i++)
+      HWLOC_VERIF_LOOP(hwloc_bitmap_realloc_by_ulongs_1)
     set->ulongs[i] = set->infinite ? HWLOC_SUBBITMAP_FULL : HWLOC_SUBBITMAP_ZERO;
   set->ulongs_count = needed_count;
   return 0;
@@ -291,14 +293,16 @@ int hwloc_bitmap_snprintf(char * __hwloc_restrict buf, size_t buflen, const stru
   if (set->infinite) {
     /* ignore starting FULL since we have 0xf...f already */
     while (i>=0 && set->ulongs[i] == HWLOC_SUBBITMAP_FULL)
+        HWLOC_VERIF_LOOP(hwloc_bitmap_snprintf_1)
       i--;
   } else {
     /* ignore starting ZERO except the last one */
     while (i>=0 && set->ulongs[i] == HWLOC_SUBBITMAP_ZERO)
+        HWLOC_VERIF_LOOP(hwloc_bitmap_snprintf_2)
       i--;
   }
 
-  while (i>=0 || accumed) {
+  while (i>=0 || accumed) HWLOC_VERIF_LOOP(hwloc_bitmap_snprintf_3) {
     unsigned long value;
 
     /* Refill accumulator */
@@ -383,6 +387,7 @@ int hwloc_bitmap_sscanf(struct hwloc_bitmap_s *set, const char * __hwloc_restric
   /* count how many substrings there are */
   count++;
   while ((current = strchr(current+1, ',')) != NULL)
+      HWLOC_VERIF_LOOP(hwloc_bitmap_sscanf_1)
     count++;
 
   current = string;
@@ -409,11 +414,12 @@ int hwloc_bitmap_sscanf(struct hwloc_bitmap_s *set, const char * __hwloc_restric
     /* accumulate substrings of the first ulong that are hidden in the infinite prefix */
     int i;
     for(i = (count % HWLOC_BITMAP_STRING_PER_LONG); i < HWLOC_BITMAP_STRING_PER_LONG; i++)
+        HWLOC_VERIF_LOOP(hwloc_bitmap_sscanf_2)
       accum |= (HWLOC_BITMAP_SUBSTRING_FULL_VALUE << (i*HWLOC_BITMAP_SUBSTRING_SIZE));
   }
 #endif
 
-  while (*current != '\0') {
+  while (*current != '\0') HWLOC_VERIF_LOOP(hwloc_bitmap_sscanf_3) {
     unsigned long val;
     char *next;
     val = strtoul(current, &next, 16);
@@ -460,7 +466,7 @@ int hwloc_bitmap_list_snprintf(char * __hwloc_restrict buf, size_t buflen, const
   if (buflen > 0)
     tmp[0] = '\0';
 
-  while (1) {
+  while (1) HWLOC_VERIF_LOOP(hwloc_bitmap_list_snprintf_1) {
     int begin, end;
 
     begin = hwloc_bitmap_next(set, prev);
@@ -518,10 +524,11 @@ int hwloc_bitmap_list_sscanf(struct hwloc_bitmap_s *set, const char * __hwloc_re
 
   hwloc_bitmap_zero(set);
 
-  while (*current != '\0') {
+  while (*current != '\0') HWLOC_VERIF_LOOP(hwloc_bitmap_list_sscanf_1) {
 
     /* ignore empty ranges */
     while (*current == ',' || *current == ' ')
+        HWLOC_VERIF_LOOP(hwloc_bitmap_list_sscanf_2)
       current++;
 
     val = strtoul(current, &next, 0);
@@ -602,14 +609,16 @@ int hwloc_bitmap_taskset_snprintf(char * __hwloc_restrict buf, size_t buflen, co
   if (set->infinite) {
     /* ignore starting FULL since we have 0xf...f already */
     while (i>=0 && set->ulongs[i] == HWLOC_SUBBITMAP_FULL)
+        HWLOC_VERIF_LOOP(hwloc_bitmap_taskset_snprintf_1)
       i--;
   } else {
     /* ignore starting ZERO except the last one */
     while (i>=1 && set->ulongs[i] == HWLOC_SUBBITMAP_ZERO)
+        HWLOC_VERIF_LOOP(hwloc_bitmap_taskset_snprintf_2)
       i--;
   }
 
-  while (i>=0) {
+  while (i>=0) HWLOC_VERIF_LOOP(hwloc_bitmap_taskset_snprintf_3) {
     unsigned long val = set->ulongs[i--];
     if (started) {
       /* print the whole subset */
@@ -701,7 +710,7 @@ int hwloc_bitmap_taskset_sscanf(struct hwloc_bitmap_s *set, const char * __hwloc
     return -1;
   set->infinite = 0;
 
-  while (*current != '\0') {
+  while (*current != '\0') HWLOC_VERIF_LOOP(hwloc_bitmap_taskset_sscanf_1) {
     int tmpchars;
     char ustr[17];
     unsigned long val;
@@ -742,6 +751,7 @@ static void hwloc_bitmap__zero(struct hwloc_bitmap_s *set)
 {
 	unsigned i;
 	for(i=0; i<set->ulongs_count; i++)
+	    HWLOC_VERIF_LOOP(hwloc_bitmap__zero_1)
 		set->ulongs[i] = HWLOC_SUBBITMAP_ZERO;
 	set->infinite = 0;
 }
@@ -763,6 +773,7 @@ static void hwloc_bitmap__fill(struct hwloc_bitmap_s * set)
 {
 	unsigned i;
 	for(i=0; i<set->ulongs_count; i++)
+	    HWLOC_VERIF_LOOP(hwloc_bitmap__fill_1)
 		set->ulongs[i] = HWLOC_SUBBITMAP_FULL;
 	set->infinite = 1;
 }
@@ -806,6 +817,7 @@ int hwloc_bitmap_from_ith_ulong(struct hwloc_bitmap_s *set, unsigned i, unsigned
 
 	set->ulongs[i] = mask;
 	for(j=0; j<i; j++)
+	    HWLOC_VERIF_LOOP(hwloc_bitmap_from_ith_ulong_1)
 		set->ulongs[j] = HWLOC_SUBBITMAP_ZERO;
 	set->infinite = 0;
 	return 0;
@@ -821,6 +833,7 @@ int hwloc_bitmap_from_ulongs(struct hwloc_bitmap_s *set, unsigned nr, const unsi
 		return -1;
 
 	for(j=0; j<nr; j++)
+	    HWLOC_VERIF_LOOP(hwloc_bitmap_from_ulongs_1)
 		set->ulongs[j] = masks[j];
 	set->infinite = 0;
 	return 0;
@@ -847,6 +860,7 @@ int hwloc_bitmap_to_ulongs(const struct hwloc_bitmap_s *set, unsigned nr, unsign
 	HWLOC__BITMAP_CHECK(set);
 
 	for(j=0; j<nr; j++)
+	    HWLOC_VERIF_LOOP(hwloc_bitmap_to_ulongs_1)
 		masks[j] = HWLOC_SUBBITMAP_READULONG(set, j);
 	return 0;
 }
@@ -935,6 +949,7 @@ int hwloc_bitmap_set_range(struct hwloc_bitmap_s * set, unsigned begincpu, int _
 		set->ulongs[beginset] |= HWLOC_SUBBITMAP_ULBIT_FROM(HWLOC_SUBBITMAP_CPU_ULBIT(begincpu));
 		/* set ulongs after begincpu if any already allocated */
 		for(i=beginset+1; i<set->ulongs_count; i++)
+		    HWLOC_VERIF_LOOP(hwloc_bitmap_set_range_1)
 			set->ulongs[i] = HWLOC_SUBBITMAP_FULL;
 		/* mark the infinity as set */
 		set->infinite = 1;
@@ -959,6 +974,7 @@ int hwloc_bitmap_set_range(struct hwloc_bitmap_s * set, unsigned begincpu, int _
 		}
 		/* set ulongs in the middle of the range */
 		for(i=beginset+1; i<endset; i++)
+		    HWLOC_VERIF_LOOP(hwloc_bitmap_set_range_2)
 			set->ulongs[i] = HWLOC_SUBBITMAP_FULL;
 	}
 
@@ -1020,6 +1036,7 @@ int hwloc_bitmap_clr_range(struct hwloc_bitmap_s * set, unsigned begincpu, int _
 		set->ulongs[beginset] &= ~HWLOC_SUBBITMAP_ULBIT_FROM(HWLOC_SUBBITMAP_CPU_ULBIT(begincpu));
 		/* clear ulong after begincpu if any already allocated */
 		for(i=beginset+1; i<set->ulongs_count; i++)
+		    HWLOC_VERIF_LOOP(hwloc_bitmap_clr_range_1)
 			set->ulongs[i] = HWLOC_SUBBITMAP_ZERO;
 		/* mark the infinity as unset */
 		set->infinite = 0;
@@ -1044,6 +1061,7 @@ int hwloc_bitmap_clr_range(struct hwloc_bitmap_s * set, unsigned begincpu, int _
 		}
 		/* clear ulongs in the middle of the range */
 		for(i=beginset+1; i<endset; i++)
+		    HWLOC_VERIF_LOOP(hwloc_bitmap_clr_range_2)
 			set->ulongs[i] = HWLOC_SUBBITMAP_ZERO;
 	}
 
@@ -1068,6 +1086,7 @@ int hwloc_bitmap_iszero(const struct hwloc_bitmap_s *set)
 	if (set->infinite)
 		return 0;
 	for(i=0; i<set->ulongs_count; i++)
+	    HWLOC_VERIF_LOOP(hwloc_bitmap_iszero_1)
 		if (set->ulongs[i] != HWLOC_SUBBITMAP_ZERO)
 			return 0;
 	return 1;
@@ -1082,6 +1101,7 @@ int hwloc_bitmap_isfull(const struct hwloc_bitmap_s *set)
 	if (!set->infinite)
 		return 0;
 	for(i=0; i<set->ulongs_count; i++)
+	    HWLOC_VERIF_LOOP(hwloc_bitmap_isfull_1)
 		if (set->ulongs[i] != HWLOC_SUBBITMAP_FULL)
 			return 0;
 	return 1;
@@ -1098,17 +1118,18 @@ int hwloc_bitmap_isequal (const struct hwloc_bitmap_s *set1, const struct hwloc_
 	HWLOC__BITMAP_CHECK(set2);
 
 	for(i=0; i<min_count; i++)
+	    HWLOC_VERIF_LOOP(hwloc_bitmap_isequal_1)
 		if (set1->ulongs[i] != set2->ulongs[i])
 			return 0;
 
 	if (count1 != count2) {
 		unsigned long w1 = set1->infinite ? HWLOC_SUBBITMAP_FULL : HWLOC_SUBBITMAP_ZERO;
 		unsigned long w2 = set2->infinite ? HWLOC_SUBBITMAP_FULL : HWLOC_SUBBITMAP_ZERO;
-		for(i=min_count; i<count1; i++) {
+		for(i=min_count; i<count1; i++) HWLOC_VERIF_LOOP(hwloc_bitmap_isequal_2) {
 			if (set1->ulongs[i] != w2)
 				return 0;
 		}
-		for(i=min_count; i<count2; i++) {
+		for(i=min_count; i<count2; i++) HWLOC_VERIF_LOOP(hwloc_bitmap_isequal_3) {
 			if (set2->ulongs[i] != w1)
 				return 0;
 		}
@@ -1131,17 +1152,20 @@ int hwloc_bitmap_intersects (const struct hwloc_bitmap_s *set1, const struct hwl
 	HWLOC__BITMAP_CHECK(set2);
 
 	for(i=0; i<min_count; i++)
+	    HWLOC_VERIF_LOOP(hwloc_bitmap_intersects_1)
 		if (set1->ulongs[i] & set2->ulongs[i])
 			return 1;
 
 	if (count1 != count2) {
 		if (set2->infinite) {
 			for(i=min_count; i<set1->ulongs_count; i++)
+			    HWLOC_VERIF_LOOP(hwloc_bitmap_intersects_2)
 				if (set1->ulongs[i])
 					return 1;
 		}
 		if (set1->infinite) {
 			for(i=min_count; i<set2->ulongs_count; i++)
+			    HWLOC_VERIF_LOOP(hwloc_bitmap_intersects_3)
 				if (set2->ulongs[i])
 					return 1;
 		}
@@ -1164,16 +1188,19 @@ int hwloc_bitmap_isincluded (const struct hwloc_bitmap_s *sub_set, const struct 
 	HWLOC__BITMAP_CHECK(super_set);
 
 	for(i=0; i<min_count; i++)
+	    HWLOC_VERIF_LOOP(hwloc_bitmap_isincluded_1)
 		if (super_set->ulongs[i] != (super_set->ulongs[i] | sub_set->ulongs[i]))
 			return 0;
 
 	if (super_count != sub_count) {
 		if (!super_set->infinite)
 			for(i=min_count; i<sub_count; i++)
+			    HWLOC_VERIF_LOOP(hwloc_bitmap_isincluded_2)
 				if (sub_set->ulongs[i])
 					return 0;
 		if (sub_set->infinite)
 			for(i=min_count; i<super_count; i++)
+			    HWLOC_VERIF_LOOP(hwloc_bitmap_isincluded_3)
 				if (super_set->ulongs[i] != HWLOC_SUBBITMAP_FULL)
 					return 0;
 	}
@@ -1201,6 +1228,7 @@ int hwloc_bitmap_or (struct hwloc_bitmap_s *res, const struct hwloc_bitmap_s *se
 		return -1;
 
 	for(i=0; i<min_count; i++)
+	    HWLOC_VERIF_LOOP(hwloc_bitmap_or_1)
 		res->ulongs[i] = set1->ulongs[i] | set2->ulongs[i];
 
 	if (count1 != count2) {
@@ -1209,6 +1237,7 @@ int hwloc_bitmap_or (struct hwloc_bitmap_s *res, const struct hwloc_bitmap_s *se
 				res->ulongs_count = min_count;
 			} else {
 				for(i=min_count; i<max_count; i++)
+				    HWLOC_VERIF_LOOP(hwloc_bitmap_or_2)
 					res->ulongs[i] = set1->ulongs[i];
 			}
 		} else {
@@ -1216,6 +1245,7 @@ int hwloc_bitmap_or (struct hwloc_bitmap_s *res, const struct hwloc_bitmap_s *se
 				res->ulongs_count = min_count;
 			} else {
 				for(i=min_count; i<max_count; i++)
+				    HWLOC_VERIF_LOOP(hwloc_bitmap_or_3)
 					res->ulongs[i] = set2->ulongs[i];
 			}
 		}
@@ -1242,12 +1272,14 @@ int hwloc_bitmap_and (struct hwloc_bitmap_s *res, const struct hwloc_bitmap_s *s
 		return -1;
 
 	for(i=0; i<min_count; i++)
+	    HWLOC_VERIF_LOOP(hwloc_bitmap_and_1)
 		res->ulongs[i] = set1->ulongs[i] & set2->ulongs[i];
 
 	if (count1 != count2) {
 		if (min_count < count1) {
 			if (set2->infinite) {
 				for(i=min_count; i<max_count; i++)
+				    HWLOC_VERIF_LOOP(hwloc_bitmap_and_2)
 					res->ulongs[i] = set1->ulongs[i];
 			} else {
 				res->ulongs_count = min_count;
@@ -1255,6 +1287,7 @@ int hwloc_bitmap_and (struct hwloc_bitmap_s *res, const struct hwloc_bitmap_s *s
 		} else {
 			if (set1->infinite) {
 				for(i=min_count; i<max_count; i++)
+				    HWLOC_VERIF_LOOP(hwloc_bitmap_and_3)
 					res->ulongs[i] = set2->ulongs[i];
 			} else {
 				res->ulongs_count = min_count;
@@ -1283,12 +1316,14 @@ int hwloc_bitmap_andnot (struct hwloc_bitmap_s *res, const struct hwloc_bitmap_s
 		return -1;
 
 	for(i=0; i<min_count; i++)
+	    HWLOC_VERIF_LOOP(hwloc_bitmap_andnot_1)
 		res->ulongs[i] = set1->ulongs[i] & ~set2->ulongs[i];
 
 	if (count1 != count2) {
 		if (min_count < count1) {
 			if (!set2->infinite) {
 				for(i=min_count; i<max_count; i++)
+				    HWLOC_VERIF_LOOP(hwloc_bitmap_andnot_2)
 					res->ulongs[i] = set1->ulongs[i];
 			} else {
 				res->ulongs_count = min_count;
@@ -1296,6 +1331,7 @@ int hwloc_bitmap_andnot (struct hwloc_bitmap_s *res, const struct hwloc_bitmap_s
 		} else {
 			if (set1->infinite) {
 				for(i=min_count; i<max_count; i++)
+				    HWLOC_VERIF_LOOP(hwloc_bitmap_andnot_3)
 					res->ulongs[i] = ~set2->ulongs[i];
 			} else {
 				res->ulongs_count = min_count;
@@ -1324,16 +1360,19 @@ int hwloc_bitmap_xor (struct hwloc_bitmap_s *res, const struct hwloc_bitmap_s *s
 		return -1;
 
 	for(i=0; i<min_count; i++)
+	    HWLOC_VERIF_LOOP(hwloc_bitmap_xor_1)
 		res->ulongs[i] = set1->ulongs[i] ^ set2->ulongs[i];
 
 	if (count1 != count2) {
 		if (min_count < count1) {
 			unsigned long w2 = set2->infinite ? HWLOC_SUBBITMAP_FULL : HWLOC_SUBBITMAP_ZERO;
 			for(i=min_count; i<max_count; i++)
+			    HWLOC_VERIF_LOOP(hwloc_bitmap_xor_2)
 				res->ulongs[i] = set1->ulongs[i] ^ w2;
 		} else {
 			unsigned long w1 = set1->infinite ? HWLOC_SUBBITMAP_FULL : HWLOC_SUBBITMAP_ZERO;
 			for(i=min_count; i<max_count; i++)
+			    HWLOC_VERIF_LOOP(hwloc_bitmap_xor_3)
 				res->ulongs[i] = set2->ulongs[i] ^ w1;
 		}
 	}
@@ -1354,6 +1393,7 @@ int hwloc_bitmap_not (struct hwloc_bitmap_s *res, const struct hwloc_bitmap_s *s
 		return -1;
 
 	for(i=0; i<count; i++)
+	    HWLOC_VERIF_LOOP(hwloc_bitmap_not_1)
 		res->ulongs[i] = ~set->ulongs[i];
 
 	res->infinite = !set->infinite;
@@ -1366,7 +1406,7 @@ int hwloc_bitmap_first(const struct hwloc_bitmap_s * set)
 
 	HWLOC__BITMAP_CHECK(set);
 
-	for(i=0; i<set->ulongs_count; i++) {
+	for(i=0; i<set->ulongs_count; i++) HWLOC_VERIF_LOOP(hwloc_bitmap_first_1) {
 		/* subsets are unsigned longs, use ffsl */
 		unsigned long w = set->ulongs[i];
 		if (w)
@@ -1385,7 +1425,7 @@ int hwloc_bitmap_first_unset(const struct hwloc_bitmap_s * set)
 
 	HWLOC__BITMAP_CHECK(set);
 
-	for(i=0; i<set->ulongs_count; i++) {
+	for(i=0; i<set->ulongs_count; i++) HWLOC_VERIF_LOOP(hwloc_bitmap_first_unset_1) {
 		/* subsets are unsigned longs, use ffsl */
 		unsigned long w = ~set->ulongs[i];
 		if (w)
@@ -1407,7 +1447,7 @@ int hwloc_bitmap_last(const struct hwloc_bitmap_s * set)
 	if (set->infinite)
 		return -1;
 
-	for(i=(int)set->ulongs_count-1; i>=0; i--) {
+	for(i=(int)set->ulongs_count-1; i>=0; i--) HWLOC_VERIF_LOOP(hwloc_bitmap_last_1) {
 		/* subsets are unsigned longs, use flsl */
 		unsigned long w = set->ulongs[i];
 		if (w)
@@ -1426,7 +1466,7 @@ int hwloc_bitmap_last_unset(const struct hwloc_bitmap_s * set)
 	if (!set->infinite)
 		return -1;
 
-	for(i=(int)set->ulongs_count-1; i>=0; i--) {
+	for(i=(int)set->ulongs_count-1; i>=0; i--) HWLOC_VERIF_LOOP(hwloc_bitmap_last_unset_1) {
 		/* subsets are unsigned longs, use flsl */
 		unsigned long w = ~set->ulongs[i];
 		if (w)
@@ -1449,7 +1489,7 @@ int hwloc_bitmap_next(const struct hwloc_bitmap_s * set, int prev_cpu)
 			return -1;
 	}
 
-	for(; i<set->ulongs_count; i++) {
+	for(; i<set->ulongs_count; i++) HWLOC_VERIF_LOOP(hwloc_bitmap_next_1) {
 		/* subsets are unsigned longs, use ffsl */
 		unsigned long w = set->ulongs[i];
 
@@ -1481,7 +1521,7 @@ int hwloc_bitmap_next_unset(const struct hwloc_bitmap_s * set, int prev_cpu)
 			return -1;
 	}
 
-	for(; i<set->ulongs_count; i++) {
+	for(; i<set->ulongs_count; i++) HWLOC_VERIF_LOOP(hwloc_bitmap_next_unset_1) {
 		/* subsets are unsigned longs, use ffsl */
 		unsigned long w = ~set->ulongs[i];
 
@@ -1507,7 +1547,7 @@ int hwloc_bitmap_singlify(struct hwloc_bitmap_s * set)
 
 	HWLOC__BITMAP_CHECK(set);
 
-	for(i=0; i<set->ulongs_count; i++) {
+	for(i=0; i<set->ulongs_count; i++) HWLOC_VERIF_LOOP(hwloc_bitmap_singlify_1) {
 		if (found) {
 			set->ulongs[i] = HWLOC_SUBBITMAP_ZERO;
 			continue;
@@ -1547,7 +1587,7 @@ int hwloc_bitmap_compare_first(const struct hwloc_bitmap_s * set1, const struct 
 	HWLOC__BITMAP_CHECK(set1);
 	HWLOC__BITMAP_CHECK(set2);
 
-	for(i=0; i<min_count; i++) {
+	for(i=0; i<min_count; i++) HWLOC_VERIF_LOOP(hwloc_bitmap_compare_first_1) {
 		unsigned long w1 = set1->ulongs[i];
 		unsigned long w2 = set2->ulongs[i];
 		if (w1 || w2) {
@@ -1563,7 +1603,7 @@ int hwloc_bitmap_compare_first(const struct hwloc_bitmap_s * set1, const struct 
 
 	if (count1 != count2) {
 		if (min_count < count2) {
-			for(i=min_count; i<count2; i++) {
+			for(i=min_count; i<count2; i++) HWLOC_VERIF_LOOP(hwloc_bitmap_compare_first_2) {
 				unsigned long w2 = set2->ulongs[i];
 				if (set1->infinite)
 					return -!(w2 & 1);
@@ -1571,7 +1611,7 @@ int hwloc_bitmap_compare_first(const struct hwloc_bitmap_s * set1, const struct 
 					return 1;
 			}
 		} else {
-			for(i=min_count; i<count1; i++) {
+			for(i=min_count; i<count1; i++) HWLOC_VERIF_LOOP(hwloc_bitmap_compare_first_3) {
 				unsigned long w1 = set1->ulongs[i];
 				if (set2->infinite)
 					return !(w1 & 1);
@@ -1601,7 +1641,7 @@ int hwloc_bitmap_compare(const struct hwloc_bitmap_s * set1, const struct hwloc_
 	if (count1 != count2) {
 		if (min_count < count2) {
 			unsigned long val1 = set1->infinite ? HWLOC_SUBBITMAP_FULL :  HWLOC_SUBBITMAP_ZERO;
-			for(i=(int)max_count-1; i>=(int) min_count; i--) {
+			for(i=(int)max_count-1; i>=(int) min_count; i--) HWLOC_VERIF_LOOP(hwloc_bitmap_compare_1) {
 				unsigned long val2 = set2->ulongs[i];
 				if (val1 == val2)
 					continue;
@@ -1609,7 +1649,7 @@ int hwloc_bitmap_compare(const struct hwloc_bitmap_s * set1, const struct hwloc_
 			}
 		} else {
 			unsigned long val2 = set2->infinite ? HWLOC_SUBBITMAP_FULL :  HWLOC_SUBBITMAP_ZERO;
-			for(i=(int)max_count-1; i>=(int) min_count; i--) {
+			for(i=(int)max_count-1; i>=(int) min_count; i--) HWLOC_VERIF_LOOP(hwloc_bitmap_compare_2) {
 				unsigned long val1 = set1->ulongs[i];
 				if (val1 == val2)
 					continue;
@@ -1618,7 +1658,7 @@ int hwloc_bitmap_compare(const struct hwloc_bitmap_s * set1, const struct hwloc_
 		}
 	}
 
-	for(i=(int)min_count-1; i>=0; i--) {
+	for(i=(int)min_count-1; i>=0; i--) HWLOC_VERIF_LOOP(hwloc_bitmap_compare_3) {
 		unsigned long val1 = set1->ulongs[i];
 		unsigned long val2 = set2->ulongs[i];
 		if (val1 == val2)
@@ -1640,6 +1680,7 @@ int hwloc_bitmap_weight(const struct hwloc_bitmap_s * set)
 		return -1;
 
 	for(i=0; i<set->ulongs_count; i++)
+	    HWLOC_VERIF_LOOP(hwloc_bitmap_weight_1)
 		weight += hwloc_weight_long(set->ulongs[i]);
 	return weight;
 }
@@ -1655,7 +1696,7 @@ int hwloc_bitmap_compare_inclusion(const struct hwloc_bitmap_s * set1, const str
 	HWLOC__BITMAP_CHECK(set1);
 	HWLOC__BITMAP_CHECK(set2);
 
-	for(i=0; i<max_count; i++) {
+	for(i=0; i<max_count; i++) HWLOC_VERIF_LOOP(hwloc_bitmap_compare_inclusion_1) {
 	  unsigned long val1 = HWLOC_SUBBITMAP_READULONG(set1, (unsigned) i);
 	  unsigned long val2 = HWLOC_SUBBITMAP_READULONG(set2, (unsigned) i);
 
